@@ -1,4 +1,4 @@
-package p19
+package tagmix
 import ("testing";"bytes";"fmt";"time";"encoding/json";"github.com/parquet-go/parquet-go")
 type j1 struct { ID int64 `parquet:"id"`; J string `parquet:"j,json,optional"` }
 type ost struct { A int64 `parquet:"a"`; B string `parquet:"b"` }
